@@ -244,7 +244,17 @@ func (fx *fnExec) execCallWith(st *state, in ssa.Instruction, cc *ssa.CallCommon
 		if info.fn != nil && fx.canInline(info.fn) {
 			return fx.inlineCall(st, in, info.fn, args, nil)
 		}
-		fx.fail("call to %s: no contract and not inlinable (key %s)", callShortName(cc), info.key)
+		if info.fn != nil && len(info.fn.Blocks) > 0 {
+			// a function of this module without a contract that cannot be executed in place (it has a
+			// loop): the call is treated like an external one (total, results unknown, everything
+			// reachable from the arguments havocked) and the function itself is swept for crash-freedom
+			// under no precondition, tagged with this function's properties
+			fx.g.queueSweep(info.fn, fx.allProps())
+			ct = &Contract{Key: info.key, Trusted: true, Opaque: true, Allocates: true, Loops: map[int]*LoopSpec{}, HavocArgs: true}
+			fx.assumptionsUsed["function of this module without a contract, called as opaque and swept for crash-freedom only: "+info.fn.String()] = true
+		} else {
+			fx.fail("call to %s: no contract and not inlinable (key %s)", callShortName(cc), info.key)
+		}
 	}
 	if rtype == nil && info.sig != nil {
 		rtype = info.sig.Results()
